@@ -4,7 +4,7 @@ from typing import Callable, Dict, List, Optional, Set, Tuple, Type, Union, Any
 
 from ..utils import exceptions as exc
 from ..utils.compat import *
-from ..utils.functional import is_local_var, get_obj_name
+from ..utils.functional import is_local_var, get_obj_name, pop
 from ..utils.datastructures import cached_property, unprovided
 from .field import ParserField
 from .options import Options, RuntimeContext
@@ -166,6 +166,16 @@ class BaseParser:
             if key.lower() in self.attr_alias_map:
                 return self.attr_alias_map[key.lower()]
         return None
+
+    @classmethod
+    def _alias_rank(cls, field: ParserField, key: str) -> int:
+        aliases = field.all_aliases
+        if key in aliases:
+            return aliases.index(key)
+        key = key.lower()
+        if key in aliases:
+            return aliases.index(key)
+        return len(aliases)
 
     def assign_search_strategy(self):
         if self.options.data_first_search is not None:
@@ -430,6 +440,7 @@ class BaseParser:
         addition = {}
         result = {}
         provided = {}   # field name -> the (first) input value given for it under any accepted name
+        ranks = {}      # field name -> position of the input key in the field's aliases
         dependencies = set()
         unprovided_fields = set()
         options = context.options
@@ -448,6 +459,7 @@ class BaseParser:
             if excluded_keys and name in excluded_keys:
                 continue
 
+            rank = self._alias_rank(field, key)
             if name in provided:
                 # another accepted name of a field already taken from the input:
                 # compare the input values (not the parsed one), before anything else, as field_first_parse does
@@ -455,8 +467,13 @@ class BaseParser:
                     if provided[name] != value:
                         context.handle_error(exc.AliasConflictError(item=name, value=value))
                     continue
-            else:
-                provided[name] = value
+                # conflicts are ignored: the value given under the field's foremost name wins,
+                # whatever the order of the input keys (as in field_first_parse)
+                if rank > ranks[name]:
+                    continue
+                pop(result, name)
+            provided[name] = value
+            ranks[name] = rank
 
             if field.is_no_input(value, options=options):
                 # no input field does not take input from __init__
